@@ -60,7 +60,7 @@ def _table_job(st):
     real = _geom(inm, c["sym"], rat(c["refax"]), dv, val)
     bad = []
     if st["exact"]:
-        if float(np.max(np.abs(real - outm))) > 1e-12 * max(1.0, float(np.max(np.abs(outm)))):
+        if not (float(np.max(np.abs(real - outm))) <= 1e-12 * max(1.0, float(np.max(np.abs(outm))))):
             bad.append("table:%s:%s" % (dv, c["mesh"]))
     if dv == "none":
         ident = float(np.max(np.abs(real - inm))) <= 1e-13 * float(np.max(np.abs(inm)))
@@ -97,21 +97,21 @@ def _random_job(k):
         return np.linalg.norm(m[-1] - m[0], axis=1)
 
     out = _geom(mesh, sym, r, "none", None)
-    if inert and float(np.max(np.abs(out - mesh))) > tol:
+    if inert and not (float(np.max(np.abs(out - mesh))) <= tol):
         bad.append("random:defaults_not_identity")
     if inert and sym:
         # a half mesh whose root is NOT on the symmetry plane (fuselage-side attachment, outboard panel): the defaults - with no
         # `span` key the current span - must leave it unchanged too
         mo = mesh.copy()
         mo[:, :, 1] -= float(rng.uniform(0.3, 2.0))
-        if float(np.max(np.abs(_geom(mo, True, r, "none", None) - mo))) > tol:
+        if not (float(np.max(np.abs(_geom(mo, True, r, "none", None) - mo))) <= tol):
             bad.append("random:defaults_not_identity_offplane_root")
     if inert:
         # span
         S = float(rng.uniform(5, 40))
         o = _geom(mesh, sym, r, "span", S)
         ext = _ref_axis(o, r)[:, 1]
-        if abs((ext.max() - ext.min()) * (2 if sym else 1) - S) > 1e-11 * S:
+        if not (abs((ext.max() - ext.min()) * (2 if sym else 1) - S) <= 1e-11 * S):
             bad.append("random:span_extent")
         # sweep / dihedral: shear, y kept, linear in distance from the root, positive aft / up on both sides
         for dv, comp in (("sweep", 0), ("dihedral", 2)):
@@ -122,25 +122,25 @@ def _random_job(k):
             d = o - mesh
             pred = np.tan(np.deg2rad(ang)) * yabs
             other = [q for q in range(3) if q != comp]
-            if float(np.max(np.abs(d[:, :, comp] - pred[None, :]))) > tol or float(np.max(np.abs(d[:, :, other]))) > tol:
+            if not (float(np.max(np.abs(d[:, :, comp] - pred[None, :]))) <= tol) or not (float(np.max(np.abs(d[:, :, other]))) <= tol):
                 bad.append("random:%s_shear" % dv)
         # taper: chord factor 1 at root -> ratio at tip, linear; reference axis fixed
         t = float(rng.uniform(0.2, 1.8)) if k % 4 else 1.0
         o = _geom(mesh, sym, r, "taper", t)
         ya = np.abs(_ref_axis(mesh, r)[:, 1])
         f = 1 + (t - 1) * ya / ya.max()
-        if float(np.max(np.abs(chords(o) - f * chords(mesh)))) > tol or float(np.max(np.abs(_ref_axis(o, r) - _ref_axis(mesh, r)))) > tol:
+        if not (float(np.max(np.abs(chords(o) - f * chords(mesh)))) <= tol) or not (float(np.max(np.abs(_ref_axis(o, r) - _ref_axis(mesh, r)))) <= tol):
             bad.append("random:taper")
         # chord scaling about the reference axis
         cd = rng.uniform(0.5, 2.0, ny)
         o = _geom(mesh, sym, r, "chord", cd)
-        if float(np.max(np.abs(chords(o) - cd * chords(mesh)))) > tol or float(np.max(np.abs(_ref_axis(o, r) - _ref_axis(mesh, r)))) > tol:
+        if not (float(np.max(np.abs(chords(o) - cd * chords(mesh)))) <= tol) or not (float(np.max(np.abs(_ref_axis(o, r) - _ref_axis(mesh, r)))) <= tol):
             bad.append("random:chord")
         # twist about the reference axis, chord length preserved, y kept (no reference-axis slope here)
         if not sloped:
             tw = rng.uniform(-12, 15, ny)
             o = _geom(mesh, sym, r, "twist", tw)
-            if float(np.max(np.abs(chords(o) - chords(mesh)))) > tol or float(np.max(np.abs(_ref_axis(o, r) - _ref_axis(mesh, r)))) > tol or float(np.max(np.abs(o[:, :, 1] - mesh[:, :, 1]))) > tol:
+            if not (float(np.max(np.abs(chords(o) - chords(mesh)))) <= tol) or not (float(np.max(np.abs(_ref_axis(o, r) - _ref_axis(mesh, r)))) <= tol) or not (float(np.max(np.abs(o[:, :, 1] - mesh[:, :, 1]))) <= tol):
                 bad.append("random:twist")
             # sense: positive twist raises the leading edge relative to the axis
             if r > 0.05 and flat_sections:
@@ -155,7 +155,7 @@ def _random_job(k):
             o = _geom(mesh, sym, r, dv, sh)
             d = o - mesh
             other = [q for q in range(3) if q != comp]
-            if float(np.max(np.abs(d[:, :, comp] - sh[None, :]))) > tol or float(np.max(np.abs(d[:, :, other]))) > tol:
+            if not (float(np.max(np.abs(d[:, :, comp] - sh[None, :]))) <= tol) or not (float(np.max(np.abs(d[:, :, other]))) <= tol):
                 bad.append("random:%s_translation" % dv)
     return {"k": k, "bad": bad, "case": {"sym": sym, "shape": shape, "nx": nx, "ny": ny, "refax": r, "inert": inert}}
 
@@ -182,18 +182,18 @@ def _bspline_job(k):
     bad = []
     for nm, v in (("twist", 3.7), ("chord", 1.3), ("xshear", 0.4), ("yshear", -0.2), ("zshear", 0.6), ("t_over_c", 0.11)):
         arr = np.array(prob.get_val(nm))
-        if float(np.max(np.abs(arr - v))) > 1e-12 * abs(v):
+        if not (float(np.max(np.abs(arr - v))) <= 1e-12 * abs(v)):
             bad.append("bspline:%s:ncp%d" % (nm, ncp))
     s2 = tube_surface(mesh, 0.35, sym=sym, thickness_cp=np.full(ncp, 0.023), radius_cp=np.full(ncp, 0.31))
     o2 = run_comp(TubeGroup(surface=s2), {}, ["thickness", "radius"])
     for nm, v in (("thickness", 0.023), ("radius", 0.31)):
-        if float(np.max(np.abs(o2[nm] - v))) > 1e-12 * v:
+        if not (float(np.max(np.abs(o2[nm] - v))) <= 1e-12 * v):
             bad.append("bspline:%s:ncp%d" % (nm, ncp))
     ux, uy, lx, ly = B.wingbox_airfoil()
     s3 = tube_surface(mesh, 0.35, sym=sym, fem_model_type="wingbox", data_x_upper=ux, data_y_upper=uy, data_x_lower=lx, data_y_lower=ly, spar_thickness_cp=np.full(ncp, 0.007), skin_thickness_cp=np.full(ncp, 0.013), original_wingbox_airfoil_t_over_c=0.12, t_over_c_cp=np.array([0.12]))
     o3 = run_comp(WingboxGroup(surface=s3), {"mesh": mesh, "t_over_c": np.full(mesh.shape[1] - 1, 0.12)}, ["spar_thickness", "skin_thickness"])
     for nm, v in (("spar_thickness", 0.007), ("skin_thickness", 0.013)):
-        if float(np.max(np.abs(o3[nm] - v))) > 1e-12 * v:
+        if not (float(np.max(np.abs(o3[nm] - v))) <= 1e-12 * v):
             bad.append("bspline:%s:ncp%d" % (nm, ncp))
     return {"k": k, "bad": bad, "case": {"ncp": ncp, "sym": sym, "ny": int(mesh.shape[1])}}
 
